@@ -154,7 +154,8 @@ pub fn run_case(case: &Case) -> (Vec<(String, String)>, Info) {
                 max_inputs: t.max_inputs as usize,
                 ts: ts + n as u64,
             };
-            if let Some(mut tx) = build_honest_tx(&p, &plan, tip_id + 3, &mut reserved) {
+            let built_tx = if t.nft { build_honest_nft_tx(&p, &plan, tip_id + 3, &mut reserved) } else { build_honest_tx(&p, &plan, tip_id + 3, &mut reserved) };
+            if let Some(mut tx) = built_tx {
                 if t.with_path {
                     let mut path = vec![payer_idx];
                     for x in &t.routers {
